@@ -419,7 +419,7 @@ func genStmt(depth int) *rapid.Generator[pgen.Node] {
 }
 
 func TestRandomTrees(t *testing.T) {
-	vt.Check(t, vt.N(12000, 300000), func(rt *rapid.T) {
+	vt.Check(t, vt.N(12000, 1200000), func(rt *rapid.T) {
 		d := rapid.IntRange(2, 5).Draw(rt, "depth")
 		n := genStmt(d).Draw(rt, "stmt")
 		batch(rt, []pgen.Node{n}, true)
